@@ -10,6 +10,7 @@ import numpy as np
 
 import felupe as fem
 
+from .apicall import call as api
 from .kernel import Discard, pick
 
 
@@ -138,7 +139,7 @@ def build_region(mesh, spec=None):
     return region
 
 
-def build_field(region, spec):
+def build_field(region, spec, seed=0):
     kind = spec.get("kind", "Field")
     dim = region.mesh.dim
     if kind == "Field":
@@ -153,7 +154,7 @@ def build_field(region, spec):
             kw["planestrain"] = True
         if spec.get("axisymmetric"):
             kw["axisymmetric"] = True
-        return fem.FieldsMixed(region, n=3, **kw)
+        return api("FieldsMixed", fem.FieldsMixed, seed, region, n=3, **kw)
     raise ValueError(kind)
 
 
@@ -203,7 +204,13 @@ def build_umat(u):
     if name == "ThreeField":
         return fem.ThreeFieldVariation(fem.NeoHooke(mu=p["mu"], bulk=p["bulk"]), parallel=par)
     if name == "NearlyIncompressible":
-        return fem.NearlyIncompressible(fem.NeoHooke(mu=p["mu"]), bulk=p["bulk"], parallel=par)
+        from .kernel import h64
+
+        kw = {}
+        if u.get("vol") == "log":
+            # the caller's own volumetric part U = K / 2 ln(J)^2, given as the two documented callables
+            kw = {"dUdJ": lambda J, bulk: bulk * np.log(J) / J, "d2UdJdJ": lambda J, bulk: bulk * (1 - np.log(J)) / J**2}
+        return api("NearlyIncompressible", fem.NearlyIncompressible, h64(repr(sorted(p.items())), u.get("vol")), fem.NeoHooke(mu=p["mu"]), bulk=p["bulk"], parallel=par, **kw)
     if name == "NearlyIncompressibleAD":
         fun = getattr(fem, p.pop("fun"))
         bulk = p.pop("bulk")
@@ -239,10 +246,11 @@ def run_prelude(doc):
 class World:
     def __init__(self, doc, umat_wrap=None):
         self.doc = doc
+        self.seed = doc.get("seed", 0)
         run_prelude(doc)
         self.mesh = build_mesh(doc["mesh"])
         self.region = build_region(self.mesh, doc.get("region"))
-        self.field = build_field(self.region, doc.get("field", {}))
+        self.field = build_field(self.region, doc.get("field", {}), self.seed)
         self.umats = []
         self.items = []
         self.boundary_regions = {}
@@ -300,12 +308,12 @@ class World:
                 kw["block"] = it["block"]
             if it.get("density") is not None:
                 kw["density"] = it["density"]
-            return fem.SolidBody(self._umat(k, it["umat"]), f, **kw)
+            return api("SolidBody", fem.SolidBody, self.seed, self._umat(k, it["umat"]), f, **kw)
         if t == "SolidBodyNearlyIncompressible":
             kw = {}
             if it.get("density") is not None:
                 kw["density"] = it["density"]
-            return fem.SolidBodyNearlyIncompressible(self._umat(k, it["umat"]), f, bulk=it["bulk"], **kw)
+            return api("SolidBodyNearlyIncompressible", fem.SolidBodyNearlyIncompressible, self.seed, self._umat(k, it["umat"]), f, bulk=it["bulk"], **kw)
         self.umats.append(None)
         as_int = pick(self.doc.get("seed", 0), "int-loads", 4) == 1  # initial load values typed as Python ints where integral
 
@@ -316,26 +324,26 @@ class World:
             return a if a.ndim else float(a)
 
         if t == "SolidBodyPressure":
-            return fem.SolidBodyPressure(self._boundary_field(it["face"]), pressure=typed(it.get("pressure", 0.0)))
+            return api("SolidBodyPressure", fem.SolidBodyPressure, self.seed, self._boundary_field(it["face"]), pressure=typed(it.get("pressure", 0.0)))
         if t == "SolidBodyCauchyStress":
             cs = it.get("stress")
             return fem.SolidBodyCauchyStress(
                 self._boundary_field(it["face"]), cauchy_stress=None if cs is None else np.asarray(cs, dtype=float)
             )
         if t == "SolidBodyForce":
-            return fem.SolidBodyForce(f, values=typed(self._load_vector(it["values"])), scale=it.get("scale", 1.0))
+            return api("SolidBodyForce", fem.SolidBodyForce, self.seed, f, values=typed(self._load_vector(it["values"])), scale=it.get("scale", 1.0))
         if t == "SolidBodyGravity":
             import warnings
 
             with warnings.catch_warnings():
                 warnings.simplefilter("ignore")
-                return fem.SolidBodyGravity(f, gravity=typed(self._load_vector(it["gravity"])), density=it.get("density", 1.0))
+                return api("SolidBodyGravity", fem.SolidBodyGravity, self.seed, f, gravity=typed(self._load_vector(it["gravity"])), density=it.get("density", 1.0))
         if t == "PointLoad":
             kw = {"axisymmetric": True} if it.get("axisymmetric") else {}
             pts = self._points(it["points"])
             if it.get("order") == "reversed":
                 pts = pts[::-1].copy()  # a point list that is not sorted
-            return fem.PointLoad(f, pts, values=typed(it["values"]), **kw)
+            return api("PointLoad", fem.PointLoad, self.seed, f, pts, values=typed(it["values"]), **kw)
         if t in ("MultiPointConstraint", "MultiPointContact"):
             pts = self._points(it["points"])
             cp = int(self._points(it["centerpoint"])[0])
@@ -343,7 +351,7 @@ class World:
             if it.get("negative_index"):
                 cp = cp - self.mesh.npoints  # the same point, counted from the end (as in the docs: -1)
             cls = getattr(fem, t)
-            return cls(f, points=pts, centerpoint=cp, skip=tuple(it.get("skip", (False,) * self.mesh.dim)), multiplier=it.get("multiplier", 1e3))
+            return api(t, cls, self.seed, f, points=pts, centerpoint=cp, skip=tuple(it.get("skip", (False,) * self.mesh.dim)), multiplier=it.get("multiplier", 1e3))
         if t == "FormItem":
             return self._form_item(it)
         raise ValueError(t)
@@ -360,6 +368,9 @@ class World:
         C = it.get("mu", 1.0) * (np.einsum("ik,jl->ijkl", eye, eye) + np.einsum("il,jk->ijkl", eye, eye)) + it.get("lmbda", 1.0) * np.einsum("ij,kl->ijkl", eye, eye)
         R = 0.1 * rng.normal(size=(d, d, d, d))
         C = C + 0.5 * (R + R.transpose(2, 3, 0, 1))
+        if it.get("nonsym"):
+            R2 = 0.3 * rng.normal(size=(d, d, d, d))
+            C = C + 0.5 * (R2 - R2.transpose(2, 3, 0, 1))
         C = C.reshape(d, d, d, d, 1, 1)
         holder = {}
 
@@ -469,7 +480,7 @@ class World:
         val = c.get("value", 0.0)
         if isinstance(val, list):
             val = np.asarray(val, dtype=float)
-        return fem.Boundary(fld, value=val, **kw)
+        return api("Boundary", fem.Boundary, self.seed, fld, value=val, **kw)
 
     def _build_case(self, bc):
         f0 = self.field[0]
@@ -489,17 +500,17 @@ class World:
             return np.array(v, dtype=int)
 
         if case == "uniaxial":
-            b, _ = fem.dof.uniaxial(self.field, clamped=bc.get("clamped", False), axis=bc.get("axis", 0), sym=symflags(bc.get("sym", True)), move=0.0)
+            b, _ = api("dof.uniaxial", fem.dof.uniaxial, self.seed, self.field, clamped=bc.get("clamped", False), axis=bc.get("axis", 0), sym=symflags(bc.get("sym", True)), move=0.0)
             ramp_bc["move"] = b["move"]
             return b, ramp_bc
         if case == "biaxial":
             axes = tuple(bc.get("axes", (0, 1)))
-            b, _ = fem.dof.biaxial(self.field, clampes=tuple(bc.get("clampes", (False, False))), moves=(0.0, 0.0), sym=symflags(bc.get("sym", True)), axes=axes)
+            b, _ = api("dof.biaxial", fem.dof.biaxial, self.seed, self.field, clampes=tuple(bc.get("clampes", (False, False))), moves=(0.0, 0.0), sym=symflags(bc.get("sym", True)), axes=axes)
             ramp_bc["move"] = b[f"move-right-{axes[0]}"]
             ramp_bc["move2"] = b[f"move-right-{axes[1]}"]
             return b, ramp_bc
         if case == "shear":
-            b, _ = fem.dof.shear(self.field, moves=(0.0, 0.0, 0.0), sym=bc.get("sym", True))
+            b, _ = api("dof.shear", fem.dof.shear, self.seed, self.field, moves=(0.0, 0.0, 0.0), sym=bc.get("sym", True))
             ramp_bc["move"] = b["move"]
             return b, ramp_bc
         if case == "patch":
